@@ -264,7 +264,7 @@ def run(ctx):
     fatoms = [(F("0.0"), 0.0), (("unary", "-", F("0.0")), -0.0), (F("1.0"), 1.0), (F("2.5"), 2.5), (("unary", "-", F("2.5")), -2.5), (F("1e308"), 1e308), (F("5e-324"), 5e-324),
               (("binary", "*", F("1e308"), F("10.0")), float("inf")), (("binary", "*", ("unary", "-", F("1e308")), F("10.0")), float("-inf")),
               (("binary", "/", F("0.0"), F("0.0")), float("nan"))]
-    fops = ["+", "-", "*", "/", "%", "==", "!=", "<", "<=", ">", ">="]
+    fops = ["+", "-", "*", "/", "%", "==", "!=", "<", "<=", ">", ">=", "max", "min"]
     fpool = tircheck.Pool(ctx)
     fmeta = []
     for op in fops:
@@ -272,7 +272,8 @@ def run(ctx):
             for (ra, rv) in fatoms:
                 if not thorough and rng.random() < 0.4:
                     continue
-                fpool.add([(("binding_expr", ("binary", op, la, ra)), "float-matrix:%s" % op)])
+                fe = ("call", ("member", ("ident", "Math"), op), [la, ra]) if op in ("max", "min") else ("binary", op, la, ra)
+                fpool.add([(("binding_expr", fe), "float-matrix:%s" % op)])
                 fmeta.append((op, lv, rv))
     fpool.run()
     for i, ((op, a, b), e) in enumerate(zip(fmeta, fpool.expected)):
@@ -607,6 +608,9 @@ def oracle_float(op, a, b):
     """IEEE-754 binary64 / ECMAScript value of `a op b` on doubles (Python floats are binary64; the cases Python refuses are spelled out)"""
     import math
     nan, inf = float("nan"), float("inf")
+    if op in ("max", "min"):
+        # what the run-time code computes (std::max / std::min, model/Sem.v): the FIRST operand unless the comparison says otherwise -- a NaN first operand stays
+        return (b if a < b else a) if op == "max" else (b if b < a else a)
     if op in ("==", "!=", "<", "<=", ">", ">="):
         if a != a or b != b:
             return op == "!="
